@@ -126,6 +126,7 @@ func (e *Enc) instr(cur *cursor, ins ssa.Instruction) {
 		} else {
 			e.storeAt(st, a, et, e.m.zero(et))
 		}
+		e.initBuilder(st, a, et)
 		fc.vals[x] = Val{K: vTerm, T: a, Ty: x.Type(), Name: x.Comment}
 		e.noteAlloc(cur, x)
 	case *ssa.Store:
@@ -1022,5 +1023,12 @@ func (e *Enc) storeRuleOblige(cur *cursor, base, what string, pos token.Pos) {
 		}
 		tag := "stores:" + r.Label
 		e.oblige(cur.guard, "stores", fmt.Sprintf("%s#%d", r.Label, e.ordinal(tag)), goal, r.Props, pos, "the function itself stores only to: "+r.Src+" (store to "+what+")")
+	}
+}
+
+// initBuilder: the zero strings.Builder holds the empty text.
+func (e *Enc) initBuilder(st *State, a string, et types.Type) {
+	if n, ok := et.(*types.Named); ok && n.Obj().Pkg() != nil && n.Obj().Pkg().Path() == "strings" && n.Obj().Name() == "Builder" {
+		e.heapSet(st, "M$builder", "Str", fmt.Sprintf("(store %s %s sempty)", e.heapGet(st, "M$builder", "Str"), a))
 	}
 }
